@@ -224,7 +224,7 @@ def run(rep):
                 rep.traces += res["edges_tested"]
                 for v in res["violations"]:
                     rep.violation(
-                        f"{cls}:{v['path'][-1]['op']}:{v['what'][:60]}",
+                        f"{cls}:{v['path'][-1]['op']}:{v['code']}",
                         f"{cls} (N={n}, profile {prof.name}): {v['what']}",
                         {"class": cls, "N": n, "profile": prof.name, "path": v["path"], "detail": v["detail"]},
                     )
@@ -257,7 +257,7 @@ def run(rep):
                 rep.traces += res["edges_tested"]
                 for v in res["violations"]:
                     rep.violation(
-                        f"MultiTask[{cls}]:{v['path'][-1]['op']}:{v['what'][:60]}",
+                        f"MultiTask[{cls}]:{v['path'][-1]['op']}:{v['code']}",
                         f"MultiTaskReplayBuffer of {cls} (K={k}, N={n}): {v['what']}",
                         {"class": cls, "K": k, "N": n, "profile": prof.name, "path": v["path"], "detail": v["detail"]},
                     )
@@ -277,7 +277,7 @@ def run(rep):
             res = graph.cover(G, G.roots()[0], lambda: RingAdapter(cls, bufkit.default_profile(), 4), ring_step, ring_project)
             rep.traces += res["edges_tested"]
             for v in res["violations"]:
-                rep.violation(f"{cls}:{v['path'][-1]['op']}:{v['what'][:60]}", f"{cls} long run: {v['what']}", {"class": cls, "N": 4, "path": v["path"]})
+                rep.violation(f"{cls}:{v['path'][-1]['op']}:{v['code']}", f"{cls} long run: {v['what']}", {"class": cls, "N": 4, "path": v["path"]})
         rep.extra["simulated_transitions"] = G.n_edges
 
     rep.evaluations = edges_total
